@@ -5,8 +5,18 @@ inputs / path) on which it fails; an obligation refuted OUTSIDE every recorded b
 violation.  'fixed' entries suppress nothing."""
 import json
 import os
+import re
 
 ROOT = os.path.dirname(os.path.dirname(os.path.abspath(__file__)))
+
+_P_RULE = re.compile(r"^(C\d\d):p_\w+\[")
+_TABLE_ENTRY = re.compile(r"FUNCTIONS\[('[^']*')\] = (?:FUNCTIONS\['[^']*'\]|[^:\[]+)")
+
+
+def lock_key(name):
+    """obligation names are keyed by what they speak about: the production, not the p_* function that carries it
+    (PLY does not care either); the key of the builtin table, not the def it happens to name"""
+    return _TABLE_ENTRY.sub(r"FUNCTIONS[\1]", _P_RULE.sub(r"\1:p_*[", name))
 
 
 def load():
@@ -36,4 +46,4 @@ def install(engine, prop):
         if cond is None:
             continue
         for name in f['obligations']:
-            engine.finding_conds.setdefault(name, []).append((f['id'], cond))
+            engine.finding_conds.setdefault(lock_key(name), []).append((f['id'], cond))
